@@ -17,6 +17,10 @@
 (* dependency graph, lazy set, substitution mode and fault per node.       *)
 (* Candidate resolution (which component an injection point resolves to)   *)
 (* is Resolve.tla's business; here edges are already resolved.             *)
+(* Scenario records of recorded runs carry harness-only fields as well     *)
+(* (orders, edge realisation, `quiet`: a user processor ordered first that *)
+(* answers false to PostProcessAfterInstantiation - which only skips its   *)
+(* own property processing and therefore has no action here).              *)
 (***************************************************************************)
 EXTENDS Integers, Sequences, FiniteSets, TLC
 
